@@ -6,8 +6,8 @@ pub uninterp spec fn ps_trusted(ps: ProveState) -> bool;
 pub open spec fn state_inv(s: PeerState) -> bool {
     &&& (s.s_last_state().is_some() ==> s.s_last_state().unwrap().header.td_ok())
     &&& (s.s_prove_state().is_some() ==> ps_trusted(s.s_prove_state().unwrap()) && s.s_prove_state().unwrap().last_state.header.td_ok()
-            // ASSUMPTION: a proved header's number is a real block number (< 2^64 - 1)
-            && s.s_prove_state().unwrap().last_state.header.s_header().s_number() < u64::MAX)
+            // ASSUMPTION: a proved header's number is a real block number (<= 2^62)
+            && s.s_prove_state().unwrap().last_state.header.s_header().s_number() <= 0x4000_0000_0000_0000)
     &&& (s.s_request().is_some() ==> s.s_request().unwrap().last_state.header.td_ok())
 }
 pub struct Peers { pub x: u8 }
@@ -48,5 +48,7 @@ impl Peers {
         ensures r.is_some() ==> ps_trusted(r.unwrap().1) && r.unwrap().1.last_state.header.td_ok() { unimplemented!() }
     #[verifier::external_body]
     pub fn matched_blocks(&self) -> (r: &RwLockMB) { unimplemented!() }
+    #[verifier::external_body]
+    pub fn get_best_proved_peers(&self, best_tip: &Header) -> (r: Vec<PeerIndex>) { unimplemented!() }
 }
 // ===== end =====
